@@ -54,7 +54,7 @@ PROPS = {
         "assumptions": ["sort.SliceStable is a stable sort", "rule outcome independent of schedule"],
     },
     "C05": {
-        "lean": ["GV.Props.C05"],
+        "lean": ["GV.Props.C05", "GV.Props.Fanout"],
         "scenarios": [{"scn": "orch", "filter": MIX_NM, "n": {"quick": 300, "thorough": 4000},
                        "aspects": ["outcome", "trace", "driver", "build"]}],
         "rule": "random rule sets, mix / inverse-mix / N-M methods (plain and selected), random n/m incl. invalid, gate-scheduled goroutines with three grant strategies; non-trivial = at least two rules started",
@@ -62,7 +62,7 @@ PROPS = {
         "assumptions": ["Go scheduler fairness (liveness is not proved)", "rule outcome independent of schedule"],
     },
     "C11": {
-        "lean": ["GV.Props.C11"],
+        "lean": ["GV.Props.C11", "GV.Props.Fanout"],
         "scenarios": [{"scn": "orch", "n": {"quick": 400, "thorough": 5000},
                        "aspects": ["results", "results-model", "driver", "build"]}],
         "rule": "all 21 Execute* methods, fresh engine or engine used by a previous call, returning / bare-return / silent / failing / failing-return rules; non-trivial = at least two rules started",
@@ -78,7 +78,7 @@ PROPS = {
         "assumptions": [],
     },
     "C13": {
-        "lean": ["GV.Props.C13"],
+        "lean": ["GV.Props.C13", "GV.Props.Fanout"],
         "scenarios": [{"scn": "orch", "filter": "ExecuteDAGModel", "n": {"quick": 200, "thorough": 3000},
                        "aspects": ["outcome", "trace", "driver", "build"]}],
         "rule": "DAG layerings (0-4 layers, width 0-3, unknown and repeated names), failing subsets, gate scheduler",
@@ -229,7 +229,7 @@ PROPS = {
         "fingerprints": EVAL_FP, "assumptions": [],
     },
     "C18": {
-        "lean": ["GV.Props.C18", "GV.Props.Locks"],
+        "lean": ["GV.Props.C18", "GV.Props.Locks", "GV.Props.Fanout"],
         "scenarios": [{"scn": "eval", "filter": "conc", "n": {"quick": 300, "thorough": 4000},
                        "aspects": ["value", "state", "trace", "cite", "hang", "panic", "shape", "driver", "build"]}],
         "rule": "programs in which about a third of the statements are conc blocks of 1-9 independent children (assignments to distinct fields / locals / pointer scalars, observer function calls and method calls with distinct arguments and a delay, at most one failing child: panic, unknown name, unknown field, dotted read of an undefined local), followed by statements that read what the block wrote; observer events of one block compared as a set, their position relative to the other events exactly; non-trivial = the rule ran to completion",
